@@ -33,7 +33,7 @@ type c17Scenario struct {
 }
 
 var c17Chars = []string{"a", "é", "中", "😀", "�", "\n", "𠀀", "ß", "\uFEFF", "\U0010FFFF", "\u07FF", "\uFFFF", "\U00010000"}
-var c17Counts = []int{0, 1, 2, 3, 5, 40, 1023, 1024, 1364, 1365, 1366, 2047, 2048, 4093, 4094, 4095, 4096, 4097, 8191, 8192, 8193, 13000}
+var c17Counts = []int{0, 1, 2, 3, 5, 40, 1023, 1024, 1364, 1365, 1366, 2047, 2048, 2730, 2731, 4093, 4094, 4095, 4096, 4097, 8191, 8192, 8193, 12287, 12288, 13000, 16383, 16384, 16385}
 
 type corruption struct {
 	name string
